@@ -55,7 +55,7 @@ def run(res, tier, seed, replay):
             res.tie_break(f"encoder correspondence no longer checks for a run in {r['stream']}: the clauses added by the "
                           f"implementation differ from the encoder model (theorems C02_encoder_*): {r['enc']}; the verdict itself "
                           f"agrees with the reference", enctie.replay(r))
-        if k == "sat" and not want:
+        if k == "sat" and want is False:
             res.violation(key, f"solver returned {r['obs']['outcome']['sat']} but no valid selection exists in {r['stream']}",
                           ss.replay_obj(r))
     if res.tie_breaks and not res.violations and not replay:
@@ -69,7 +69,7 @@ def run(res, tier, seed, replay):
             want = bref[r["key"]]["solvable"]
             if want is None:
                 continue
-            if (k == "unsat" and want) or (k == "sat" and not want):
+            if (k == "unsat" and want) or (k == "sat" and want is False):
                 res.violation(r["key"], f"solver verdict {k} but reference says solvable={want} (found by the search burst) in {r['stream']}",
                               ss.replay_obj(r))
             elif k == "panic":
